@@ -52,6 +52,9 @@ type PubSpec struct {
 	Name   string
 	Client int // index into Clients, or -1 for the in-process Publisher API
 	Msgs   []Msg
+	// Aliases (v5 connections): the publisher sends its topics through two topic aliases: the first use binds an
+	// alias, a repeated topic goes alias-only, another topic on the same alias re-binds it
+	Aliases bool `json:",omitempty"`
 }
 
 // Scenario is a complete generated case.
@@ -208,6 +211,7 @@ func Generate(rng *rand.Rand, maxClients, maxMsgs int) Scenario {
 		for i := 0; i < nm; i++ {
 			ps.Msgs = append(ps.Msgs, Msg{Topic: names[rng.Intn(len(names))], QoS: byte(rng.Intn(3)), Retain: rng.Intn(4) == 0, Rich: rng.Intn(3) == 0})
 		}
+		ps.Aliases = rng.Intn(3) == 0
 		sc.Pubs = append(sc.Pubs, ps)
 	}
 	return sc
@@ -428,6 +432,7 @@ func RunScenario(sc *Scenario, yield func(string)) (fs []finding, obs map[string
 		go func() {
 			defer wg.Done()
 			msgs := append(append([]Msg{}, ps.Msgs...), Msg{Topic: "sentinel/" + ps.Name, QoS: 1})
+			aliasTable := map[uint16]string{}
 			for seq, m := range msgs {
 				payload := fmt.Sprintf("%s/%d", ps.Name, seq)
 				if ps.Client < 0 {
@@ -443,6 +448,17 @@ func RunScenario(sc *Scenario, yield func(string)) (fs []finding, obs map[string
 				p := &mqttx.Packet{Topic: m.Topic, QoS: m.QoS, Retain: m.Retain, Payload: []byte(payload)}
 				if m.Rich && c.V == mqttx.V5 {
 					p.Props = richProps(payload)
+				}
+				if ps.Aliases && c.V == mqttx.V5 {
+					a := uint16(1 + (len(m.Topic)+seq)%2)
+					if p.Props == nil {
+						p.Props = &mqttx.Props{}
+					}
+					p.Props.TopicAlias = &a
+					if aliasTable[a] == m.Topic {
+						p.Topic = "" // alias only
+					}
+					aliasTable[a] = m.Topic
 				}
 				ack, err := c.Publish(p, step)
 				if err != nil {
